@@ -58,7 +58,12 @@ fn render(doc: &Value, escaped: bool) -> String {
 
 fn render_v(doc: &Value, escaped: bool, variant: usize) -> String {
     match doc["top"].as_str().unwrap() {
-        "array" => "[1,2,3]".into(),
+        "array" => {
+            // the bare class ("tops" stratum) or a positional document: items are dimension or data tokens
+            let l = doc["fields"].as_array().cloned().unwrap_or_default();
+            let items: Vec<String> = l.iter().map(|f| if f["val"].is_object() { data_text(&f["val"]) } else { dim_text(f["val"].as_u64().unwrap()) }).collect();
+            format!("[{}]", items.join(","))
+        }
         "number" => "42".into(),
         "string" => "\"toodee\"".into(),
         "null" => "null".into(),
@@ -116,6 +121,8 @@ fn run_doc(case: &Value) -> Vec<Fail> {
     let mut fails = Vec::new();
     let exp_ok = x["res"]["k"] == "ok";
     let may_reject = x["may_reject"].as_bool().unwrap_or(false);
+    // not a map: the reading is not fixed by the specification, only "no panic, and consistent if accepted"
+    let may_accept_consistent = x["may_accept_consistent"].as_bool().unwrap_or(false);
     let mut transports: Vec<(String, DeOut)> = Vec::new();
     let has_unknown = doc["fields"].as_array().map(|l| l.iter().any(|f| f["key"] == "extra")).unwrap_or(false);
     let variants: Vec<(bool, usize)> = if has_unknown { (0..6).map(|v| (v % 2 == 1, v)).collect() } else { vec![(false, 0), (true, 0)] };
@@ -141,7 +148,11 @@ fn run_doc(case: &Value) -> Vec<Fail> {
                 }
             }
             DeOut::Ok(nc, nr, data, shape_ok) => {
-                if !exp_ok {
+                if !exp_ok && may_accept_consistent {
+                    if !shape_ok {
+                        fails.push(Fail::new(0, "de.inconsistent", json!({"transport": name, "doc": render(doc, false), "got": [nc, nr], "len": data.len()})));
+                    }
+                } else if !exp_ok {
                     fails.push(Fail::new(0, "de.accepted", json!({"transport": name, "doc": render(doc, false), "got": [nc, nr], "data": data})));
                 } else {
                     let enc = x["res"]["nc"].as_u64().unwrap() as usize;
